@@ -214,3 +214,693 @@ Lemma be_bytes_length n v : length (be_bytes n v) = n.
 Proof. induction n; cbn; auto. Qed.
 Lemma zeros_wf n : wf_bytes (zeros n).
 Proof. unfold zeros. induction n; cbn; constructor; auto. reflexivity. Qed.
+
+(* ------------------------------------------------------------------ adjacent writes merge *)
+Lemma upd_upd_adjacent f o a f1 b f2 :
+  upd f o a = Some f1 -> upd f1 (o + length a) b = Some f2 -> upd f o (a ++ b) = Some f2.
+Proof.
+  intros H1 H2. apply upd_shape in H1. destruct H1 as [-> B1].
+  apply upd_shape in H2. destruct H2 as [-> B2].
+  assert (LA : length (firstn o f) = o) by (rewrite firstn_length; lia).
+  rewrite !app_length, LA, skipn_length in B2.
+  unfold upd. rewrite app_length.
+  assert (Hb : Nat.leb (o + (length a + length b)) (length f) = true) by (apply Nat.leb_le; lia).
+  rewrite Hb. f_equal.
+  set (A := firstn o f) in *.
+  assert (E1 : firstn (o + length a) (A ++ a ++ skipn (o + length a) f) = A ++ a).
+  { rewrite firstn_app, LA. rewrite (firstn_all2 (n := (o + length a)%nat) A) by lia.
+    replace (o + length a - o)%nat with (length a) by lia.
+    rewrite firstn_app, firstn_all, Nat.sub_diag, firstn_O, app_nil_r. reflexivity. }
+  assert (E2 : skipn (o + length a + length b) (A ++ a ++ skipn (o + length a) f) = skipn (o + (length a + length b)) f).
+  { rewrite skipn_app, LA. rewrite (skipn_all2 (n := (o + length a + length b)%nat) A) by lia. cbn [app].
+    replace (o + length a + length b - o)%nat with (length a + length b)%nat by lia.
+    rewrite skipn_app. rewrite (skipn_all2 (n := (length a + length b)%nat) a) by lia. cbn [app].
+    replace (length a + length b - length a)%nat with (length b) by lia.
+    rewrite skipn_skipn'. f_equal. lia. }
+  rewrite E1, E2. rewrite <- !app_assoc. reflexivity.
+Qed.
+
+Lemma put_ok opt f off bs : (opt + off + length bs <= length f)%nat ->
+  exists f', put opt (WOk f off) bs = WOk f' (off + length bs) /\ upd f (opt + off) bs = Some f'.
+Proof.
+  intros H. cbn [put].
+  assert (E : Nat.ltb (length f) (opt + off + length bs) = false) by (apply Nat.ltb_ge; lia). rewrite E.
+  unfold upd. assert (E2 : Nat.leb (opt + off + length bs) (length f) = true) by (apply Nat.leb_le; lia). rewrite E2.
+  eexists; split; reflexivity.
+Qed.
+
+(* the options the program writes, as one string *)
+Definition opt_bytes (rt : N) (pv : poolv) (sip : bytes) : bytes :=
+  [53; 1; rt] ++ ([54; 4] ++ sip) ++ ([51; 4] ++ be_bytes 4 (pv_lease pv)) ++ ([1; 4] ++ prefix_to_mask (pv_prefix pv))
+  ++ ([3; 4] ++ pv_gw pv)
+  ++ (if all_zero (pv_dns1 pv) then [] else if all_zero (pv_dns2 pv) then [6; 4] ++ pv_dns1 pv else [6; 8] ++ pv_dns1 pv ++ pv_dns2 pv)
+  ++ ([58; 4] ++ be_bytes 4 (pv_lease pv / 2)) ++ ([59; 4] ++ be_bytes 4 (((pv_lease pv * 7) mod W32) / 8)) ++ [255].
+
+Lemma prefix_to_mask_length p : length (prefix_to_mask p) = 4%nat.
+Proof. unfold prefix_to_mask. destruct (p =? 0); [reflexivity|]. destruct (32 <=? p); reflexivity. Qed.
+
+Record pv_ok (pv : poolv) : Prop := { pvk_gw : length (pv_gw pv) = 4%nat; pvk_d1 : length (pv_dns1 pv) = 4%nat; pvk_d2 : length (pv_dns2 pv) = 4%nat }.
+
+Lemma pool_view_ok v pv : pool_view v = Some pv -> pv_ok pv.
+Proof.
+  unfold pool_view. destruct (rd8 v 4); [|discriminate]. destruct (rd v 8 4) eqn:E1; [|discriminate].
+  destruct (rd v 12 4) eqn:E2; [|discriminate]. destruct (rd v 16 4) eqn:E3; [|discriminate].
+  destruct (rd v 20 4); [|discriminate]. intros H; inversion H; subst. constructor; cbn; eapply rd_length; eauto.
+Qed.
+
+Lemma opt_bytes_length rt pv sip : length sip = 4%nat -> pv_ok pv ->
+  (length (opt_bytes rt pv sip) = 40 \/ length (opt_bytes rt pv sip) = 46 \/ length (opt_bytes rt pv sip) = 50)%nat.
+Proof.
+  intros Hs [Hg H1 H2]. unfold opt_bytes.
+  destruct (all_zero (pv_dns1 pv)); [|destruct (all_zero (pv_dns2 pv))];
+  repeat (rewrite ?app_length, ?be_bytes_length, ?prefix_to_mask_length, ?Hs, ?Hg, ?H1, ?H2; cbn [length]); lia.
+Qed.
+
+Lemma upd_nil f o : (o <= length f)%nat -> upd f o [] = Some f.
+Proof.
+  intros H. unfold upd. cbn [length]. assert (E : Nat.leb (o + 0) (length f) = true) by (apply Nat.leb_le; lia).
+  rewrite E, Nat.add_0_r. cbn [app]. rewrite firstn_skipn. reflexivity.
+Qed.
+
+Lemma put_chain opt f acc g off bs :
+  upd f opt acc = Some g -> off = length acc -> (opt + off + length bs <= length f)%nat ->
+  exists g', put opt (WOk g off) bs = WOk g' (off + length bs) /\ upd f opt (acc ++ bs) = Some g'.
+Proof.
+  intros V E B. pose proof (upd_length _ _ _ _ V) as L.
+  destruct (put_ok opt g off bs) as [g' [P U]]; [lia|].
+  exists g'. split; [exact P|]. subst off. eapply upd_upd_adjacent; eauto.
+Qed.
+
+Ltac lens := rewrite ?app_length, ?be_bytes_length, ?prefix_to_mask_length; cbn [length]; lia.
+Ltac put_step V :=
+  match goal with
+  | |- context [put ?opt (WOk ?g ?off) ?bs] =>
+      let g' := fresh "g" in let P := fresh "P" in let V' := fresh "V" in
+      destruct (put_chain opt _ _ g off bs V) as [g' [P V']]; [ lens | lens | rewrite P; clear P V ]
+  end.
+
+Lemma build_options_run f opt rt pv sip : length sip = 4%nat -> pv_ok pv -> (opt + 64 <= length f)%nat ->
+  exists f3, build_options f opt rt pv sip = WOk f3 (length (opt_bytes rt pv sip))
+             /\ upd f opt (opt_bytes rt pv sip) = Some f3.
+Proof.
+  intros Hs [Hg H1 H2] HL. unfold build_options, opt_bytes.
+  assert (V : upd f opt [] = Some f) by (apply upd_nil; lia).
+  put_step V. put_step V0. put_step V. put_step V0. put_step V.
+  destruct (all_zero (pv_dns1 pv)) eqn:Z1; [|destruct (all_zero (pv_dns2 pv)) eqn:Z2].
+  - put_step V0. put_step V. put_step V0.
+    exists g6. split; [f_equal; lens|]. rewrite <- V. f_equal. cbn [app]. rewrite <- ?app_assoc. cbn [app]. rewrite <- ?app_assoc. cbn [app]. reflexivity.
+  - put_step V0. put_step V. put_step V0. put_step V.
+    exists g7. split; [f_equal; lens|]. rewrite <- V0. f_equal. cbn [app]. rewrite <- ?app_assoc. cbn [app]. rewrite <- ?app_assoc. cbn [app]. reflexivity.
+  - put_step V0. put_step V. put_step V0. put_step V.
+    exists g7. split; [f_equal; lens|]. rewrite <- V0. f_equal. cbn [app]. rewrite <- ?app_assoc. cbn [app]. rewrite <- ?app_assoc. cbn [app]. reflexivity.
+Qed.
+
+(* ------------------------------------------------------------------ what a successful parse says *)
+Record layout (f : bytes) (p : pkt) : Prop := {
+  L_voff : (p_voff p = 0 \/ p_voff p = 4 \/ p_voff p = 8)%nat;
+  L_ip : p_ip p = (14 + p_voff p)%nat;
+  L_udp : p_udp p = (p_ip p + 20)%nat;
+  L_dhcp : p_dhcp p = (p_ip p + 28)%nat;
+  L_len : (p_dhcp p + 240 <= length f)%nat;
+  L_l2 : l2_len f = Some (p_ip p);
+  L_b0 : exists b0, rd8 f (p_ip p) = Some b0 /\ N.land b0 15 = 5;
+  L_proto : rd8 f (p_ip p + 9) = Some 17 }.
+
+Ltac break_H H := repeat match type of H with
+  | context [match ?x with _ => _ end] => let E := fresh "E" in destruct x eqn:E; try discriminate H
+  end.
+
+Lemma parse_l3_layout f tagged vid ivid voff et l3 p :
+  parse_l3 f tagged vid ivid voff et l3 = Parsed p ->
+  bytes_eqb et [8; 0] = true /\ p_ip p = l3 /\ p_voff p = voff /\ p_udp p = (l3 + 20)%nat /\ p_dhcp p = (l3 + 28)%nat
+  /\ (l3 + 28 + 240 <= length f)%nat /\ (exists b0, rd8 f l3 = Some b0 /\ N.land b0 15 = 5) /\ rd8 f (l3 + 9) = Some 17.
+Proof.
+  unfold parse_l3. intros H.
+  destruct (bytes_eqb et [8; 0]) eqn:Eet; cbn [negb] in H; [|discriminate].
+  destruct (Nat.ltb (length f) (l3 + 20)); [discriminate|].
+  destruct (rd8 f (l3 + 9)) as [proto|] eqn:Ep; [|discriminate].
+  destruct (rd8 f l3) as [b0|] eqn:Eb; [|discriminate].
+  destruct (proto =? 17) eqn:E17; cbn [negb] in H; [|discriminate]. apply N.eqb_eq in E17. subst proto.
+  destruct (N.land b0 15 =? 5) eqn:E5; cbn [negb] in H; [|discriminate]. apply N.eqb_eq in E5.
+  rewrite E5 in H. change (N.to_nat 5 * 4)%nat with 20%nat in H.
+  destruct (Nat.ltb (length f) (l3 + 20 + 8)); [discriminate|].
+  destruct (rd f (l3 + 20 + 2) 2); [|discriminate].
+  destruct (negb (bytes_eqb b [0; 67])); [discriminate|].
+  destruct (Nat.ltb (length f) (l3 + 20 + 8 + 240)) eqn:EL; [discriminate|]. apply Nat.ltb_ge in EL.
+  inversion H; subst; cbn. repeat split; try lia; eauto.
+Qed.
+
+Lemma vlan_et_not_ip et : is_vlan_et et = true -> bytes_eqb et [8; 0] = false.
+Proof.
+  unfold is_vlan_et. intros H. apply orb_true_iff in H. destruct H as [H|H]; apply bytes_eqb_eq in H; subst; reflexivity.
+Qed.
+
+Lemma parse_layout f p : parse f = Parsed p -> layout f p.
+Proof.
+  unfold parse. intros H.
+  destruct (Nat.ltb (length f) 14); [discriminate|].
+  destruct (rd f 12 2) as [et|] eqn:E12; [|discriminate].
+  destruct (is_vlan_et et) eqn:Ev.
+  - destruct (Nat.ltb (length f) 18); [discriminate|].
+    destruct (rd f 14 2) as [tci|]; [|discriminate]. destruct (rd f 16 2) as [et2|] eqn:E16; [|discriminate].
+    destruct (bytes_eqb et2 [129; 0]) eqn:Eq.
+    + destruct (Nat.ltb (length f) 22); [discriminate|].
+      destruct (rd f 18 2) as [tci2|]; [|discriminate]. destruct (rd f 20 2) as [et3|] eqn:E20; [|discriminate].
+      apply parse_l3_layout in H. destruct H as (A & B & C & D & E & F & G & I).
+      apply bytes_eqb_eq in Eq. subst et2.
+      constructor; try lia; auto; try (rewrite B; auto).
+      unfold l2_len. rewrite E12, (vlan_et_not_ip _ Ev), Ev, E16. cbn. rewrite E20, A, ?B. reflexivity.
+    + apply parse_l3_layout in H. destruct H as (A & B & C & D & E & F & G & I).
+      constructor; try lia; auto; try (rewrite B; auto).
+      unfold l2_len. rewrite E12, (vlan_et_not_ip _ Ev), Ev, E16, A, ?B. reflexivity.
+  - apply parse_l3_layout in H. destruct H as (A & B & C & D & E & F & G & I).
+    constructor; try lia; auto; try (rewrite B; auto).
+    unfold l2_len. rewrite E12, A, ?B. reflexivity.
+Qed.
+
+(* ------------------------------------------------------------------ well-formedness of written values *)
+Lemma be16b_wf v : wf_bytes (be16b v).
+Proof. unfold be16b. repeat constructor; apply N.mod_lt; discriminate. Qed.
+Lemma le16b_wf v : wf_bytes (le16b v).
+Proof. unfold le16b. repeat constructor; apply N.mod_lt; discriminate. Qed.
+Lemma prefix_to_mask_wf p : wf_bytes (prefix_to_mask p).
+Proof.
+  unfold prefix_to_mask. destruct (p =? 0); [repeat constructor|]. destruct (32 <=? p); [repeat constructor|apply be_bytes_wf].
+Qed.
+Lemma pool_view_wf v pv : wf_bytes v -> pool_view v = Some pv -> wf_bytes (pv_gw pv) /\ wf_bytes (pv_dns1 pv) /\ wf_bytes (pv_dns2 pv).
+Proof.
+  unfold pool_view. intros W. destruct (rd8 v 4); [|discriminate]. destruct (rd v 8 4) eqn:E1; [|discriminate].
+  destruct (rd v 12 4) eqn:E2; [|discriminate]. destruct (rd v 16 4) eqn:E3; [|discriminate].
+  destruct (rd v 20 4); [|discriminate]. intros H; inversion H; subst. cbn. repeat split; eapply rd_wf; eauto.
+Qed.
+Lemma wf_cons x l : x < 256 -> wf_bytes l -> wf_bytes (x :: l).
+Proof. intros. constructor; auto. Qed.
+Lemma opt_bytes_wf rt pv sip : rt < 256 -> wf_bytes sip -> wf_bytes (pv_gw pv) -> wf_bytes (pv_dns1 pv) -> wf_bytes (pv_dns2 pv) ->
+  wf_bytes (opt_bytes rt pv sip).
+Proof.
+  intros Hr Ws Wg W1 W2. unfold opt_bytes.
+  repeat first [apply wf_app | apply wf_cons; [lia|] | apply be_bytes_wf | apply prefix_to_mask_wf | assumption
+               | match goal with |- wf_bytes (if ?c then _ else _) => destruct c end | constructor ].
+Qed.
+Lemma zeros_length n : length (zeros n) = n.
+Proof. apply repeat_length. Qed.
+
+(* both header rewrites are the same nine stores; only some values differ *)
+Lemma rewrite_l2l3_shape f p cfgmac sip giaddr f1 :
+  wf_bytes f -> wf_bytes cfgmac -> wf_bytes sip -> length cfgmac = 6%nat -> length sip = 4%nat -> length giaddr = 4%nat ->
+  wf_bytes giaddr ->
+  (if all_zero giaddr then rewrite_direct f p cfgmac sip else rewrite_relay f p cfgmac sip giaddr) = Some f1 ->
+  exists w0 w3 w7, length w0 = 6%nat /\ length w3 = 4%nat /\ length w7 = 2%nat /\ wf_bytes w0 /\ wf_bytes w3 /\ wf_bytes w7 /\
+    upds f [ (0%nat, w0); (6%nat, cfgmac); ((p_ip p + 12)%nat, sip); ((p_ip p + 16)%nat, w3);
+             ((p_ip p + 8)%nat, [64]); ((p_ip p + 10)%nat, [0; 0]);
+             (p_udp p, [0; 67]); ((p_udp p + 2)%nat, w7); ((p_udp p + 6)%nat, [0; 0]) ] = Some f1.
+Proof.
+  intros Wf Wm Ws Lm Ls Lg Wg H. destruct (all_zero giaddr).
+  - unfold rewrite_direct in H.
+    destruct (rd f (p_dhcp p + 10) 2) as [fl|] eqn:E1; [|discriminate].
+    destruct fl as [|fh [|fl [|? ?]]]; try discriminate.
+    destruct (rd f (p_dhcp p + 12) 4) as [ci|] eqn:E2; [|discriminate].
+    destruct (rd f (p_dhcp p + 28) 6) as [ch|] eqn:E3; [|discriminate].
+    exists (if negb (N.land fh 128 =? 0) || all_zero ci then [255; 255; 255; 255; 255; 255] else ch), [255; 255; 255; 255], [0; 68].
+    repeat split; try reflexivity; try (repeat constructor; fail); try exact H.
+    + destruct (negb (N.land fh 128 =? 0) || all_zero ci); [reflexivity|exact (rd_length _ _ _ _ E3)].
+    + destruct (negb (N.land fh 128 =? 0) || all_zero ci); [repeat constructor|exact (rd_wf _ _ _ _ Wf E3)].
+  - unfold rewrite_relay in H. destruct (rd f 6 6) as [src|] eqn:E1; [|discriminate].
+    exists src, giaddr, [0; 67].
+    repeat split; try reflexivity; try (repeat constructor; fail); try exact H; try assumption.
+    + exact (rd_length _ _ _ _ E1).
+    + exact (rd_wf _ _ _ _ Wf E1).
+Qed.
+
+(* ------------------------------------------------------------------ the reply, in phases *)
+Ltac inv_upds H :=
+  cbn [upds] in H;
+  repeat match type of H with
+  | match upd ?f ?o ?bs with Some _ => _ | None => None end = Some _ =>
+      let U := fresh "U" in let g := fresh "g" in destruct (upd f o bs) as [g|] eqn:U; [|discriminate H]
+  end;
+  inversion H; subst; clear H.
+
+Ltac side := cbn [length]; rewrite ?zeros_length; lia.
+Ltac thru :=
+  repeat match goal with
+  | U : upd ?g ?o ?bs = Some ?g' |- context [rd ?g' ?o' ?n] =>
+      rewrite (rd_upd_other g o bs g' o' n U) by side
+  end.
+
+Lemma explode20 (l : bytes) : length l = 20%nat ->
+  exists a0 a1 a2 a3 a4 a5 a6 a7 a8 a9 a10 a11 a12 a13 a14 a15 a16 a17 a18 a19,
+    l = [a0; a1; a2; a3; a4; a5; a6; a7; a8; a9; a10; a11; a12; a13; a14; a15; a16; a17; a18; a19].
+Proof.
+  intros H. do 20 (destruct l as [|? l]; [discriminate H|]). destruct l; [|discriminate H].
+  repeat eexists.
+Qed.
+
+(* the part of [reply] behind build_dhcp_options: lengths, checksum, tail *)
+Definition finish (f3 : bytes) (p : pkt) (optlen : nat) (mk : list N) : res :=
+  let dhcp_len := (240 + N.of_nat optlen) mod W16 in
+  let udp_len := (8 + dhcp_len) mod W16 in
+  let ip_len := (20 + udp_len) mod W16 in
+  let total := (14 + N.of_nat (p_voff p) + ip_len) mod W16 in
+  match upds f3 [ ((p_ip p + 2)%nat, be16b ip_len); ((p_udp p + 4)%nat, be16b udp_len) ] with
+  | None => OOB
+  | Some f4 =>
+      match rd f4 (p_ip p) 20 with
+      | None => OOB
+      | Some hdr =>
+          match upd f4 (p_ip p + 10) (le16b (ip_checksum hdr)) with
+          | None => OOB
+          | Some f5 =>
+              let orig := N.of_nat (length f5) mod W16 in
+              if total =? orig then Done XDP_TX f5 mk else
+              if N.of_nat (length f5) + total <? orig then Done XDP_PASS f5 [302] else
+              match adjust_tail f5 (N.to_nat (N.of_nat (length f5) + total - orig)) with
+              | Some f6 => Done XDP_TX f6 mk
+              | None => Done XDP_PASS f5 [302]
+              end
+          end
+      end
+  end.
+
+Lemma reply_split m unow f p mt asg poolval cfg expiry :
+  reply m unow f p mt asg poolval cfg expiry =
+  match rd asg 4 4, pool_view poolval, rd cfg 0 6, rd cfg 8 4, rd f (p_dhcp p + 24) 4 with
+  | Some yi, Some pv, Some cfgmac, Some cfgip, Some giaddr =>
+      let server_ip := if all_zero cfgip then pv_gw pv else cfgip in
+      match (if all_zero giaddr then rewrite_direct f p cfgmac server_ip
+             else rewrite_relay f p cfgmac server_ip giaddr) with
+      | None => OOB
+      | Some f1 =>
+          match rewrite_dhcp f1 p yi server_ip with
+          | None => OOB
+          | Some f2 =>
+              match build_options f2 (p_dhcp p + 240) (if mt =? 1 then 2 else 5) pv server_ip with
+              | WOob => OOB
+              | WFail f3 => Done XDP_PASS f3 [302]
+              | WOk f3 optlen => finish f3 p optlen (tx_markers m f p mt yi server_ip cfgip pv expiry unow)
+              end
+          end
+      end
+  | _, _, _, _, _ => OOB
+  end.
+Proof. reflexivity. Qed.
+
+Opaque ip_checksum.
+
+Lemma finish_facts f3 p n MK v r mk :
+  (p_voff p = 0 \/ p_voff p = 4 \/ p_voff p = 8)%nat -> p_ip p = (14 + p_voff p)%nat ->
+  p_udp p = (p_ip p + 20)%nat -> p_dhcp p = (p_ip p + 28)%nat ->
+  (p_dhcp p + 240 + 64 <= length f3)%nat -> N.of_nat (length f3) < 65536 ->
+  (n = 40 \/ n = 46 \/ n = 50)%nat ->
+  finish f3 p n MK = Done v r mk ->
+  v = XDP_TX /\ mk = MK /\ length r = (p_dhcp p + 240 + n)%nat /\
+  (forall o k, (o + k <= p_dhcp p + 240 + n)%nat -> (o + k <= p_ip p + 2 \/ p_ip p + 4 <= o)%nat ->
+               (o + k <= p_ip p + 10 \/ p_ip p + 12 <= o)%nat -> (o + k <= p_udp p + 4 \/ p_udp p + 6 <= o)%nat ->
+               rd r o k = rd f3 o k) /\
+  rd r (p_ip p + 2) 2 = Some (be16b (N.of_nat (268 + n))) /\
+  rd r (p_udp p + 4) 2 = Some (be16b (N.of_nat (248 + n))) /\
+  (wf_bytes f3 -> rd f3 (p_ip p + 10) 2 = Some [0; 0] ->
+   exists hdr, rd r (p_ip p) 20 = Some hdr /\ ip_checksum_valid hdr = true).
+Proof.
+  intros Lv Lip Ludp Ldh L64 L16 Hn H. unfold finish in H. cbv zeta in H.
+  assert (Edl : (240 + N.of_nat n) mod W16 = N.of_nat (240 + n)) by (unfold W16; rewrite N.mod_small; lia).
+  rewrite Edl in H. clear Edl.
+  assert (Eul : (8 + N.of_nat (240 + n)) mod W16 = N.of_nat (248 + n)) by (unfold W16; rewrite N.mod_small; lia).
+  rewrite Eul in H. clear Eul.
+  assert (Eil : (20 + N.of_nat (248 + n)) mod W16 = N.of_nat (268 + n)) by (unfold W16; rewrite N.mod_small; lia).
+  rewrite Eil in H. clear Eil.
+  assert (Etl : (14 + N.of_nat (p_voff p) + N.of_nat (268 + n)) mod W16 = N.of_nat (p_dhcp p + 240 + n)) by (unfold W16; rewrite N.mod_small; lia).
+  rewrite Etl in H. clear Etl.
+  destruct (upds f3 [((p_ip p + 2)%nat, be16b (N.of_nat (268 + n))); ((p_udp p + 4)%nat, be16b (N.of_nat (248 + n)))]) as [f4|] eqn:E4; [|discriminate].
+  pose proof (upds_length _ _ _ E4) as Lf4.
+  destruct (rd f4 (p_ip p) 20) as [hdr0|] eqn:Eh; [|discriminate].
+  set (CS := le16b (ip_checksum hdr0)) in *.
+  destruct (upd f4 (p_ip p + 10) CS) as [f5|] eqn:U5; [|discriminate].
+  pose proof (upd_length _ _ _ _ U5) as Lf5.
+  assert (Eor : N.of_nat (length f5) mod W16 = N.of_nat (length f3)) by (unfold W16; rewrite N.mod_small; lia).
+  rewrite Eor in H. clear Eor.
+  set (T := (p_dhcp p + 240 + n)%nat) in *.
+  assert (HT : (T < length f3)%nat) by (unfold T; lia).
+  assert (HT14 : (14 <= T)%nat) by (unfold T; lia).
+  destruct (N.of_nat T =? N.of_nat (length f3)) eqn:Eq; [apply N.eqb_eq in Eq; lia|].
+  destruct (N.of_nat (length f5) + N.of_nat T <? N.of_nat (length f3)) eqn:Elt; [apply N.ltb_lt in Elt; lia|].
+  replace (N.to_nat (N.of_nat (length f5) + N.of_nat T - N.of_nat (length f3))) with T in H by lia.
+  unfold adjust_tail in H.
+  destruct (Nat.ltb T 14) eqn:E14; [apply Nat.ltb_lt in E14; lia|].
+  destruct (Nat.leb T (length f5)) eqn:Ele; [|apply Nat.leb_gt in Ele; lia].
+  inversion H; subst v r mk. clear H.
+  split; [reflexivity|]. split; [reflexivity|].
+  split; [rewrite firstn_length; lia|].
+  assert (LCS : length CS = 2%nat) by reflexivity.
+  assert (Lbe : forall x, length (be16b x) = 2%nat) by reflexivity.
+  inv_upds E4.
+  split; [|split; [|split]].
+  - intros o k B D1 D2 D3. rewrite rd_firstn by lia.
+    rewrite (rd_upd_other _ _ _ _ o k U5) by (rewrite LCS; lia).
+    rewrite (rd_upd_other _ _ _ _ o k U0) by (rewrite Lbe; lia).
+    rewrite (rd_upd_other _ _ _ _ o k U) by (rewrite Lbe; lia). reflexivity.
+  - rewrite rd_firstn by lia.
+    rewrite (rd_upd_other _ _ _ _ _ _ U5) by (rewrite LCS; lia).
+    rewrite (rd_upd_other _ _ _ _ _ _ U0) by (rewrite Lbe; lia).
+    change 2%nat with (length (be16b (N.of_nat (268 + n)))). eapply rd_upd_same; eauto.
+  - rewrite rd_firstn by lia.
+    rewrite (rd_upd_other _ _ _ _ _ _ U5) by (rewrite LCS; lia).
+    change 2%nat with (length (be16b (N.of_nat (248 + n)))). eapply rd_upd_same; eauto.
+  - intros W3 Z.
+    assert (W4 : wf_bytes f4) by (eapply upd_wf; [eapply upd_wf; [exact W3|apply be16b_wf|exact U]|apply be16b_wf|exact U0]).
+    pose proof (rd_wf _ _ _ _ W4 Eh) as Wh.
+    assert (Z4 : rd f4 (p_ip p + 10) 2 = Some [0; 0]).
+    { rewrite (rd_upd_other _ _ _ _ _ _ U0) by (rewrite Lbe; lia).
+      rewrite (rd_upd_other _ _ _ _ _ _ U) by (rewrite Lbe; lia). exact Z. }
+    destruct (explode20 hdr0 (rd_length _ _ _ _ Eh)) as (a0&a1&a2&a3&a4&a5&a6&a7&a8&a9&a10&a11&a12&a13&a14&a15&a16&a17&a18&a19&->).
+    pose proof (rd_sub _ _ _ _ 10 2 Eh ltac:(lia)) as S10. cbn [firstn skipn] in S10. rewrite Z4 in S10. inversion S10; subst a10 a11.
+    pose proof (rd_sub _ _ _ _ 0 10 Eh ltac:(lia)) as S0. cbn [firstn skipn] in S0. rewrite Nat.add_0_r in S0.
+    pose proof (rd_sub _ _ _ _ 12 8 Eh ltac:(lia)) as S12. cbn [firstn skipn] in S12.
+    rewrite <- (rd_upd_other _ _ _ _ _ _ U5) in S0 by (rewrite LCS; lia).
+    rewrite <- (rd_upd_other _ _ _ _ _ _ U5) in S12 by (rewrite LCS; lia).
+    pose proof (rd_upd_same _ _ _ _ U5) as S10'. rewrite LCS in S10'.
+    pose proof (rd_cat _ _ _ _ _ _ S0 S10') as C1.
+    replace (p_ip p + 10 + 2)%nat with (p_ip p + 12)%nat in * by lia.
+    pose proof (rd_cat _ _ _ _ _ _ C1 S12) as C2. cbn [Nat.add app] in C2.
+    eexists. split.
+    + rewrite rd_firstn by lia. exact C2.
+    + unfold CS, le16b. cbn [app]. apply checksum_valid_20. exact Wh.
+Qed.
+
+(* stores of phases 1 and 2 leave every disjoint region alone *)
+Lemma phase1_facts f p cfgmac sip w0 w3 w7 f1 :
+  length w0 = 6%nat -> length cfgmac = 6%nat -> length sip = 4%nat -> length w3 = 4%nat -> length w7 = 2%nat ->
+  upds f [ (0%nat, w0); (6%nat, cfgmac); ((p_ip p + 12)%nat, sip); ((p_ip p + 16)%nat, w3);
+           ((p_ip p + 8)%nat, [64]); ((p_ip p + 10)%nat, [0; 0]);
+           (p_udp p, [0; 67]); ((p_udp p + 2)%nat, w7); ((p_udp p + 6)%nat, [0; 0]) ] = Some f1 ->
+  p_udp p = (p_ip p + 20)%nat -> (14 <= p_ip p)%nat ->
+  (forall o k, (12 <= o)%nat -> (o + k <= p_ip p + 8 \/ p_ip p + 9 <= o)%nat -> (o + k <= p_ip p + 10 \/ p_udp p + 4 <= o)%nat ->
+               (o + k <= p_udp p + 6 \/ p_udp p + 8 <= o)%nat -> rd f1 o k = rd f o k) /\
+  rd f1 (p_ip p + 10) 2 = Some [0; 0] /\ rd f1 (p_udp p) 2 = Some [0; 67].
+Proof.
+  intros L0 Lm Ls L3 L7 H Ludp Lip. inv_upds H. repeat split.
+  - intros o k B D1 D2 D3.
+    rewrite (rd_upd_other _ _ _ _ o k U7) by side. rewrite (rd_upd_other _ _ _ _ o k U6) by (rewrite L7; lia).
+    rewrite (rd_upd_other _ _ _ _ o k U5) by side. rewrite (rd_upd_other _ _ _ _ o k U4) by side.
+    rewrite (rd_upd_other _ _ _ _ o k U3) by side. rewrite (rd_upd_other _ _ _ _ o k U2) by (rewrite L3; lia).
+    rewrite (rd_upd_other _ _ _ _ o k U1) by (rewrite Ls; lia). rewrite (rd_upd_other _ _ _ _ o k U0) by (rewrite Lm; lia).
+    rewrite (rd_upd_other _ _ _ _ o k U) by (rewrite L0; lia). reflexivity.
+  - rewrite (rd_upd_other _ _ _ _ _ _ U7) by side. rewrite (rd_upd_other _ _ _ _ _ _ U6) by (rewrite L7; lia).
+    rewrite (rd_upd_other _ _ _ _ _ _ U5) by side. exact (rd_upd_same _ _ _ _ U4).
+  - rewrite (rd_upd_other _ _ _ _ _ _ U7) by side. rewrite (rd_upd_other _ _ _ _ _ _ U6) by (rewrite L7; lia).
+    exact (rd_upd_same _ _ _ _ U5).
+Qed.
+
+Lemma phase1_wf f p cfgmac sip w0 w3 w7 f1 :
+  wf_bytes f -> wf_bytes w0 -> wf_bytes cfgmac -> wf_bytes sip -> wf_bytes w3 -> wf_bytes w7 ->
+  upds f [ (0%nat, w0); (6%nat, cfgmac); ((p_ip p + 12)%nat, sip); ((p_ip p + 16)%nat, w3);
+           ((p_ip p + 8)%nat, [64]); ((p_ip p + 10)%nat, [0; 0]);
+           (p_udp p, [0; 67]); ((p_udp p + 2)%nat, w7); ((p_udp p + 6)%nat, [0; 0]) ] = Some f1 -> wf_bytes f1.
+Proof.
+  intros. eapply upds_wf; [| |eassumption]; [assumption|]. repeat constructor; cbn; auto; lia.
+Qed.
+
+Lemma phase2_facts f1 p yi sip f2 :
+  length yi = 4%nat -> length sip = 4%nat -> rewrite_dhcp f1 p yi sip = Some f2 ->
+  (forall o k, (o + k <= p_dhcp p \/ p_dhcp p + 1 <= o)%nat -> (o + k <= p_dhcp p + 3 \/ p_dhcp p + 4 <= o)%nat ->
+               (o + k <= p_dhcp p + 16 \/ p_dhcp p + 24 <= o)%nat -> (o + k <= p_dhcp p + 44 \/ p_dhcp p + 236 <= o)%nat ->
+               rd f2 o k = rd f1 o k) /\
+  rd f2 (p_dhcp p) 1 = Some [2] /\ rd f2 (p_dhcp p + 16) 4 = Some yi /\ rd f2 (p_dhcp p + 20) 4 = Some sip.
+Proof.
+  intros Ly Ls H. unfold rewrite_dhcp in H. inv_upds H. repeat split.
+  - intros o k D1 D2 D3 D4.
+    rewrite (rd_upd_other _ _ _ _ o k U4) by side. rewrite (rd_upd_other _ _ _ _ o k U3) by side.
+    rewrite (rd_upd_other _ _ _ _ o k U2) by (rewrite Ls; lia). rewrite (rd_upd_other _ _ _ _ o k U1) by (rewrite Ly; lia).
+    rewrite (rd_upd_other _ _ _ _ o k U0) by side. rewrite (rd_upd_other _ _ _ _ o k U) by side. reflexivity.
+  - rewrite (rd_upd_other _ _ _ _ _ _ U4) by side. rewrite (rd_upd_other _ _ _ _ _ _ U3) by side.
+    rewrite (rd_upd_other _ _ _ _ _ _ U2) by (rewrite Ls; lia). rewrite (rd_upd_other _ _ _ _ _ _ U1) by (rewrite Ly; lia).
+    rewrite (rd_upd_other _ _ _ _ _ _ U0) by side. exact (rd_upd_same _ _ _ _ U).
+  - rewrite (rd_upd_other _ _ _ _ _ _ U4) by side. rewrite (rd_upd_other _ _ _ _ _ _ U3) by side.
+    rewrite (rd_upd_other _ _ _ _ _ _ U2) by (rewrite Ls; lia). pose proof (rd_upd_same _ _ _ _ U1) as X. rewrite Ly in X. exact X.
+  - rewrite (rd_upd_other _ _ _ _ _ _ U4) by side. rewrite (rd_upd_other _ _ _ _ _ _ U3) by side.
+    pose proof (rd_upd_same _ _ _ _ U2) as X. rewrite Ls in X. exact X.
+Qed.
+
+Lemma phase2_wf f1 p yi sip f2 : wf_bytes f1 -> wf_bytes yi -> wf_bytes sip -> rewrite_dhcp f1 p yi sip = Some f2 -> wf_bytes f2.
+Proof.
+  intros. unfold rewrite_dhcp in *. eapply upds_wf; [| |eassumption]; [assumption|].
+  repeat constructor; cbn; auto; try lia; apply zeros_wf.
+Qed.
+
+(* ------------------------------------------------------------------ the whole program *)
+Definition wf_rawmap (l : rawmap) : Prop := forall k v, In (k, v) l -> wf_bytes v.
+Record wf_maps (m : maps) : Prop := {
+  WM_sub : wf_rawmap (m_sub m); WM_vlan : wf_rawmap (m_vlan m); WM_cid : wf_rawmap (m_cid m);
+  WM_pool : wf_rawmap (m_pool m); WM_cfg : forall c, m_cfg m = Some c -> wf_bytes c }.
+
+Lemma lookup_in k l v : lookup k l = Some v -> exists k', In (k', v) l.
+Proof.
+  induction l as [|[k' v'] l IH]; cbn; [discriminate|].
+  destruct (bytes_eqb k' k); intros H; [inversion H; subst; eauto|]. destruct (IH H) as [k'' ?]. eauto.
+Qed.
+
+Lemma find_assignment_wf m f p a : wf_maps m -> find_assignment m f p = Some (Some a) -> wf_bytes a.
+Proof.
+  intros [Ws Wv Wc _ _] H. unfold find_assignment in H.
+  destruct (if p_tagged p then lookup (le16b (p_vid p) ++ le16b (p_ivid p)) (m_vlan m) else None) as [a1|] eqn:E1.
+  - inversion H; subst. destruct (p_tagged p); [|discriminate]. destruct (lookup_in _ _ _ E1) as [k I]. eapply Wv; eauto.
+  - destruct (extract_cid f (p_dhcp p + 240)) as [ck|]; [|discriminate].
+    destruct (match ck with Some k => lookup k (m_cid m) | None => None end) as [a2|] eqn:E2.
+    + inversion H; subst. destruct ck; [|discriminate]. destruct (lookup_in _ _ _ E2) as [k I]. eapply Wc; eauto.
+    + destruct (rd f (p_dhcp p + 28) 6); [|discriminate]. inversion H as [E3].
+      destruct (lookup_in _ _ _ E3) as [k I]. eapply Ws; eauto.
+Qed.
+
+(* what every transmitted reply looks like *)
+Record tx_facts (f r : bytes) (p : pkt) (yi sip optb : bytes) : Prop := {
+  F_len : length r = (p_dhcp p + 240 + length optb)%nat;
+  F_opts : rd r (p_dhcp p + 240) (length optb) = Some optb;
+  F_yi : rd r (p_dhcp p + 16) 4 = Some yi;
+  F_si : rd r (p_dhcp p + 20) 4 = Some sip;
+  F_op : rd r (p_dhcp p) 1 = Some [2];
+  F_hw : rd r (p_dhcp p + 1) 2 = rd f (p_dhcp p + 1) 2;
+  F_xid : rd r (p_dhcp p + 4) 4 = rd f (p_dhcp p + 4) 4;
+  F_ch : rd r (p_dhcp p + 28) 16 = rd f (p_dhcp p + 28) 16;
+  F_magic : rd r (p_dhcp p + 236) 4 = rd f (p_dhcp p + 236) 4;
+  F_l2 : forall o k, (12 <= o)%nat -> (o + k <= p_ip p)%nat -> rd r o k = rd f o k;
+  F_vi : rd r (p_ip p) 2 = rd f (p_ip p) 2;
+  F_proto : rd r (p_ip p + 9) 1 = rd f (p_ip p + 9) 1;
+  F_totlen : rd r (p_ip p + 2) 2 = Some (be16b (N.of_nat (length r - p_ip p)));
+  F_udplen : rd r (p_udp p + 4) 2 = Some (be16b (N.of_nat (length r - p_udp p)));
+  F_sport : rd r (p_udp p) 2 = Some [0; 67];
+  F_csum : exists hdr, rd r (p_ip p) 20 = Some hdr /\ ip_checksum_valid hdr = true }.
+
+Lemma reply_facts m unow f p mt asg poolval cfg expiry v r mk :
+  layout f p -> (p_dhcp p + 240 + 64 <= length f)%nat -> N.of_nat (length f) < 65536 ->
+  wf_bytes f -> wf_bytes asg -> wf_bytes poolval -> wf_bytes cfg ->
+  reply m unow f p mt asg poolval cfg expiry = Done v r mk ->
+  v = XDP_TX /\
+  exists yi pv cfgip,
+    rd asg 4 4 = Some yi /\ pool_view poolval = Some pv /\ rd cfg 8 4 = Some cfgip /\
+    let sip := if all_zero cfgip then pv_gw pv else cfgip in
+    tx_facts f r p yi sip (opt_bytes (if mt =? 1 then 2 else 5) pv sip).
+Proof.
+  intros [Lv Lip Ludp Ldh Llen _ _ _] L64 L16 Wf Wa Wp Wc H. rewrite reply_split in H.
+  destruct (rd asg 4 4) as [yi|] eqn:Eyi; [|discriminate].
+  destruct (pool_view poolval) as [pv|] eqn:Epv; [|discriminate].
+  destruct (rd cfg 0 6) as [cfgmac|] eqn:Emac; [|discriminate].
+  destruct (rd cfg 8 4) as [cfgip|] eqn:Ecip; [|discriminate].
+  destruct (rd f (p_dhcp p + 24) 4) as [giaddr|] eqn:Egi; [|discriminate].
+  cbv zeta in H.
+  pose proof (pool_view_ok _ _ Epv) as PK. destruct (PK) as [Kg K1 K2].
+  destruct (pool_view_wf _ _ Wp Epv) as (Wg & W1 & W2).
+  set (sip := if all_zero cfgip then pv_gw pv else cfgip) in *.
+  assert (Lsip : length sip = 4%nat) by (unfold sip; destruct (all_zero cfgip); [exact Kg|exact (rd_length _ _ _ _ Ecip)]).
+  assert (Wsip : wf_bytes sip) by (unfold sip; destruct (all_zero cfgip); [assumption|exact (rd_wf _ _ _ _ Wc Ecip)]).
+  set (rt := if mt =? 1 then 2 else 5) in *.
+  assert (Hrt : rt < 256) by (unfold rt; destruct (mt =? 1); lia).
+  set (optb := opt_bytes rt pv sip) in *.
+  assert (Hn : (length optb = 40 \/ length optb = 46 \/ length optb = 50)%nat) by (apply opt_bytes_length; assumption).
+  assert (Wob : wf_bytes optb) by (apply opt_bytes_wf; assumption).
+  remember (tx_markers m f p mt yi sip cfgip pv expiry unow) as MK eqn:EMK. clear EMK.
+  destruct (if all_zero giaddr then rewrite_direct f p cfgmac sip else rewrite_relay f p cfgmac sip giaddr) as [f1|] eqn:E1; [|discriminate].
+  destruct (rewrite_dhcp f1 p yi sip) as [f2|] eqn:E2; [|discriminate].
+  assert (Lm : length cfgmac = 6%nat) by exact (rd_length _ _ _ _ Emac).
+  assert (Wm : wf_bytes cfgmac) by exact (rd_wf _ _ _ _ Wc Emac).
+  assert (Lyi : length yi = 4%nat) by exact (rd_length _ _ _ _ Eyi).
+  assert (Wyi : wf_bytes yi) by exact (rd_wf _ _ _ _ Wa Eyi).
+  destruct (rewrite_l2l3_shape f p cfgmac sip giaddr f1 Wf Wm Wsip Lm Lsip (rd_length _ _ _ _ Egi) (rd_wf _ _ _ _ Wf Egi) E1)
+    as (w0 & w3 & w7 & L0 & L3 & L7 & W0 & W3 & W7 & S1).
+  pose proof (upds_length _ _ _ S1) as Lf1.
+  assert (Lf2 : length f2 = length f) by (unfold rewrite_dhcp in E2; rewrite (upds_length _ _ _ E2); exact Lf1).
+  pose proof (phase1_wf _ _ _ _ _ _ _ _ Wf W0 Wm Wsip W3 W7 S1) as Wf1.
+  pose proof (phase2_wf _ _ _ _ _ Wf1 Wyi Wsip E2) as Wf2.
+  destruct (phase1_facts _ _ _ _ _ _ _ _ L0 Lm Lsip L3 L7 S1 Ludp ltac:(lia)) as (P1 & P1z & P1s).
+  destruct (phase2_facts _ _ _ _ _ Lyi Lsip E2) as (P2 & P2o & P2y & P2s).
+  clear E1 S1 E2.
+  destruct (build_options_run f2 (p_dhcp p + 240) rt pv sip Lsip PK ltac:(lia)) as [f3 [EB U3]].
+  fold optb in EB, U3. rewrite EB in H. clear EB.
+  pose proof (upd_length _ _ _ _ U3) as Lf3.
+  pose proof (upd_wf _ _ _ _ Wf2 Wob U3) as Wf3.
+  assert (P3 : forall o k, (o + k <= p_dhcp p + 240)%nat -> rd f3 o k = rd f2 o k)
+    by (intros o k B; apply (rd_upd_other _ _ _ _ o k U3); lia).
+  pose proof (rd_upd_same _ _ _ _ U3) as P3o.
+
+  destruct (finish_facts f3 p (length optb) MK v r mk Lv Lip Ludp Ldh ltac:(lia) ltac:(lia) Hn H)
+    as (Ev & _ & Lr & Q & Qt & Qu & Qc).
+  split; [exact Ev|]. exists yi, pv, cfgip. repeat (split; [reflexivity|]).
+  change (tx_facts f r p yi sip optb).
+  constructor.
+  - exact Lr.
+  - rewrite Q by lia. exact P3o.
+  - rewrite Q, P3, P2y by lia. reflexivity.
+  - rewrite Q, P3, P2s by lia. reflexivity.
+  - rewrite Q, P3, P2o by lia. reflexivity.
+  - rewrite Q, P3, P2, P1 by lia. reflexivity.
+  - rewrite Q, P3, P2, P1 by lia. reflexivity.
+  - rewrite Q, P3, P2, P1 by lia. reflexivity.
+  - rewrite Q, P3, P2, P1 by lia. reflexivity.
+  - intros o k B1 B2. rewrite Q, P3, P2, P1 by lia. reflexivity.
+  - rewrite Q, P3, P2, P1 by lia. reflexivity.
+  - rewrite Q, P3, P2, P1 by lia. reflexivity.
+  - rewrite Qt. do 2 f_equal. lia.
+  - rewrite Qu. do 2 f_equal. lia.
+  - rewrite Q, P3, P2 by lia. exact P1s.
+  - apply Qc; [exact Wf3|]. rewrite P3, P2 by lia. exact P1z.
+Qed.
+
+(* ------------------------------------------------------------------ xdp: every outcome *)
+Definition rt_of (mt : N) : N := if mt =? 1 then 2 else 5.
+
+Definition tx_case (m : maps) (now : N) (f r : bytes) : Prop :=
+  exists (p : pkt) (mt : N) (asg ex pid poolval cfg yi : bytes) (pv : poolv) (cfgip : bytes),
+    parse f = Parsed p /\
+    (get_msg_type f (p_dhcp p + 240) = Some mt /\ (mt = 1 \/ mt = 3)) /\
+    find_assignment m f p = Some (Some asg) /\
+    (rd asg 13 8 = Some ex /\ now / NS_PER_S <= le_val ex) /\
+    (rd asg 0 4 = Some pid /\ lookup pid (m_pool m) = Some poolval /\ pool_view poolval = Some pv) /\
+    (m_cfg m = Some cfg /\ rd cfg 8 4 = Some cfgip) /\
+    rd asg 4 4 = Some yi /\
+    tx_facts f r p yi (if all_zero cfgip then pv_gw pv else cfgip)
+             (opt_bytes (rt_of mt) pv (if all_zero cfgip then pv_gw pv else cfgip)).
+
+Lemma xdp_result m now unow f v r mk :
+  wf_bytes f -> wf_maps m -> N.of_nat (length f) < 65536 ->
+  xdp m now unow f = Done v r mk ->
+  (v = XDP_PASS /\ r = f /\ mk = []) \/ (v = XDP_TX /\ tx_case m now f r).
+Proof.
+  intros Wf Wm L16 H. unfold xdp in H.
+  destruct (parse f) as [|p|] eqn:Ep; [inversion H; auto| |discriminate].
+  pose proof (parse_layout _ _ Ep) as LY.
+  destruct (rd8 f (p_dhcp p)) as [op|]; [|discriminate].
+  destruct (rd f (p_dhcp p + 236) 4) as [magic|]; [|discriminate].
+  destruct (negb (op =? 1)); [inversion H; auto|].
+  destruct (negb (bytes_eqb magic [99; 130; 83; 99])); [inversion H; auto|].
+  destruct (get_msg_type f (p_dhcp p + 240)) as [mt|] eqn:Emt; [|discriminate].
+  destruct ((mt =? 1) || (mt =? 3)) eqn:E13; cbn [negb] in H; [|inversion H; auto].
+  destruct (find_assignment m f p) as [[asg|]|] eqn:Ef; [| inversion H; auto | discriminate].
+  destruct (rd asg 13 8) as [ex|] eqn:Eex; [|discriminate].
+  destruct (rd asg 0 4) as [pid|] eqn:Epid; [|discriminate].
+  destruct (le_val ex <? now / NS_PER_S) eqn:Elt; [inversion H; auto|]. apply N.ltb_ge in Elt.
+  destruct (lookup pid (m_pool m)) as [poolval|] eqn:Epl; [|inversion H; auto].
+  destruct (Nat.ltb (length f) (p_dhcp p + 240 + 64)) eqn:E64; [inversion H; auto|]. apply Nat.ltb_ge in E64.
+  destruct (m_cfg m) as [cfg|] eqn:Ecfg; [|inversion H; auto].
+  pose proof (find_assignment_wf _ _ _ _ Wm Ef) as Wa.
+  assert (Wp : wf_bytes poolval) by (destruct (lookup_in _ _ _ Epl) as [k I]; eapply (WM_pool _ Wm); eauto).
+  assert (Wc : wf_bytes cfg) by (eapply (WM_cfg _ Wm); eauto).
+  destruct (reply_facts _ _ _ _ _ _ _ _ _ _ _ _ LY E64 L16 Wf Wa Wp Wc H) as (Ev & yi & pv & cfgip & A1 & A2 & A3 & A4).
+  right. split; [exact Ev|].
+  apply orb_true_iff in E13.
+  exists p, mt, asg, ex, pid, poolval, cfg, yi, pv, cfgip.
+  assert (Hmt : mt = 1 \/ mt = 3) by (destruct E13 as [E|E]; apply N.eqb_eq in E; auto).
+  repeat (split; [solve [auto]|]). exact A4.
+Qed.
+
+(* clause 4: a frame that is not answered is handed on unchanged (XDP_PASS is the only other verdict) *)
+Lemma pass_identity m now unow f v r mk :
+  wf_bytes f -> wf_maps m -> N.of_nat (length f) < 65536 ->
+  xdp m now unow f = Done v r mk -> v <> XDP_TX -> v = XDP_PASS /\ r = f.
+Proof.
+  intros Wf Wm L H N. destruct (xdp_result _ _ _ _ _ _ _ Wf Wm L H) as [(A & B & _)|(A & _)]; [auto|contradiction].
+Qed.
+
+(* the program never reads or writes outside the frame on well-formed maps *)
+Lemma no_entry_pass m now unow f p :
+  parse f = Parsed p -> find_assignment m f p = Some None ->
+  forall v r mk, xdp m now unow f = Done v r mk -> v = XDP_PASS /\ r = f.
+Proof.
+  intros Ep Ef v r mk H. unfold xdp in H. rewrite Ep in H.
+  destruct (rd8 f (p_dhcp p)); [|discriminate]. destruct (rd f (p_dhcp p + 236) 4); [|discriminate].
+  destruct (negb (n =? 1)); [inversion H; auto|].
+  destruct (negb (bytes_eqb b [99; 130; 83; 99])); [inversion H; auto|].
+  destruct (get_msg_type f (p_dhcp p + 240)); [|discriminate].
+  destruct (negb ((n0 =? 1) || (n0 =? 3))); [inversion H; auto|].
+  rewrite Ef in H. inversion H; auto.
+Qed.
+
+(* the expiry test is right when the kernel clock reads Unix seconds *)
+Lemma expired_pass_same_clock m now unow f v r mk :
+  wf_bytes f -> wf_maps m -> N.of_nat (length f) < 65536 ->
+  now / NS_PER_S = unow ->
+  xdp m now unow f = Done v r mk -> v = XDP_TX ->
+  exists p asg ex, parse f = Parsed p /\ find_assignment m f p = Some (Some asg) /\ rd asg 13 8 = Some ex /\ unow <= le_val ex.
+Proof.
+  intros Wf Wm L E H Ev. destruct (xdp_result _ _ _ _ _ _ _ Wf Wm L H) as [(A & _)|(_ & X)]; [rewrite A in Ev; discriminate|].
+  destruct X as (p & mt & asg & ex & pid & poolval & cfg & yi & pv & cfgip & A1 & A2 & A3 & (A4 & A5) & _).
+  exists p, asg, ex. rewrite <- E. auto.
+Qed.
+
+(* ------------------------------------------------------------------ the Go side *)
+Lemma lookup_mdel k l : lookup k (mdel k l) = None.
+Proof.
+  induction l as [|[k' v] l IH]; cbn; [reflexivity|].
+  destruct (bytes_eqb k' k) eqn:E; cbn; [exact IH|]. rewrite E. exact IH.
+Qed.
+
+Lemma bytes_eqb_refl k : bytes_eqb k k = true.
+Proof. apply bytes_eqb_eq. reflexivity. Qed.
+
+Lemma lookup_mput k v l : lookup k (mput k v l) = Some v.
+Proof.
+  induction l as [|[k' v'] l IH]; cbn; [rewrite bytes_eqb_refl; reflexivity|].
+  destruct (bytes_eqb k' k) eqn:E; cbn; [rewrite bytes_eqb_refl; reflexivity|].
+  destruct (lex_ltb k k'); cbn; [rewrite bytes_eqb_refl; reflexivity|]. rewrite E. exact IH.
+Qed.
+
+(* after RELEASE / DECLINE / expiry sweep the subscriber's entries are gone *)
+Lemma gone_entries m mac cid e :
+  e = GRelease mac cid \/ e = GDecline mac cid \/ e = GExpire mac cid ->
+  let m' := fst (cache_step m e) in
+  lookup (go_mac_key mac) (m_sub m') = None /\ (cid <> [] -> lookup (go_cid_key cid) (m_cid m') = None).
+Proof.
+  intros [-> | [-> | ->]]; unfold cache_step, set_maps; cbn [fst m_sub m_cid]; (split; [apply lookup_mdel|]); intros Hc; destruct cid; try congruence; apply lookup_mdel.
+Qed.
+
+Lemma gone_not_answered m mac cid e now unow f p :
+  e = GRelease mac cid \/ e = GDecline mac cid \/ e = GExpire mac cid ->
+  parse f = Parsed p -> p_tagged p = false ->
+  rd f (p_dhcp p + 28) 6 = Some (rev (firstn 6 (go_mac_key mac))) -> skipn 6 (go_mac_key mac) = [0; 0] ->
+  (extract_cid f (p_dhcp p + 240) = Some None \/ (cid <> [] /\ extract_cid f (p_dhcp p + 240) = Some (Some (go_cid_key cid)))) ->
+  forall v r mk, xdp (fst (cache_step m e)) now unow f = Done v r mk -> v = XDP_PASS /\ r = f.
+Proof.
+  intros He Ep Et Em Ek Ec. destruct (gone_entries m mac cid e He) as [G1 G2].
+  apply (no_entry_pass _ _ _ _ _ Ep). unfold find_assignment. rewrite Et.
+  assert (K : rev (rev (firstn 6 (go_mac_key mac))) ++ [0; 0] = go_mac_key mac).
+  { rewrite rev_involutive, <- Ek. apply firstn_skipn. }
+  destruct Ec as [Ec|[Hc Ec]]; rewrite Ec, Em; cbv beta iota.
+  - rewrite K, G1. reflexivity.
+  - rewrite (G2 Hc). cbv beta iota. rewrite K, G1. reflexivity.
+Qed.
+
+(* what the ACK branch of handleRequest leaves under the subscriber's MAC: the address bytes reversed *)
+Lemma ack_entry m mac ip pool vlan class ex cid :
+  lookup (go_mac_key mac) (m_sub (fst (cache_step m (GAck mac ip pool vlan class ex cid)))) =
+  Some (go_assignment pool ip vlan class ex).
+Proof. unfold cache_step, set_maps. cbn [fst m_sub]. apply lookup_mput. Qed.
+
+Lemma le_bytes_length n v : length (le_bytes n v) = n.
+Proof. unfold le_bytes. rewrite rev_length. apply be_bytes_length. Qed.
+
+Lemma assignment_ip pool ip vlan class ex : rd (go_assignment pool ip vlan class ex) 4 4 = Some (go_ip ip).
+Proof.
+  unfold go_assignment, go_u32, go_ip.
+  pose proof (rd_app_r (le_bytes 4 (pool mod W32)) (le_bytes 4 (be_val ip) ++ le_bytes 4 (vlan mod W32) ++ [class mod 256] ++ go_u64 ex ++ [0] ++ [0; 0; 0]) 0 4) as R.
+  rewrite le_bytes_length in R. cbn [Nat.add] in R. rewrite R.
+  rewrite rd_app_l by (rewrite le_bytes_length; lia). rewrite rd_some by (rewrite le_bytes_length; lia).
+  cbn [skipn]. rewrite firstn_all2 by (rewrite le_bytes_length; lia). reflexivity.
+Qed.
